@@ -134,6 +134,82 @@ class C03(Check):
                             self.extra_cov["configuration_probes"] = n
                             return
         self.extra_cov["configuration_probes"] = n
+        # (2) shapes of the grant and of the declaration that the API accepts without complaint: list / tuple / frozenset
+        #     grants; a declaration that is a bare member, a list, a tuple, a frozenset or a method - a tool whose
+        #     declaration is not within the grant must not run, whatever exception the comparison itself may raise
+        n2 = 0
+        shapes_g = [lambda g: set(g), lambda g: list(g), lambda g: tuple(g), lambda g: frozenset(g)]
+        shapes_d = [lambda d: set(d), lambda d: list(d), lambda d: tuple(d), lambda d: frozenset(d),
+                    lambda d: next(iter(d)), lambda d: (lambda: set(d))]
+        for gi, sg in enumerate(shapes_g):
+            for di, sd in enumerate(shapes_d):
+                for grant, decl in ((set(), {caps[2]}), ({caps[0]}, {caps[2]}), ({caps[0], caps[1]}, {caps[4]})):
+                    for entry in ("expr", "call", "call-args", "loop"):
+                        ran = []
+                        try:
+                            m = Mitochondria(silent=True, allowed_capabilities=sg(grant), max_ros=1e9)
+                            t = MC.ToolStub("wipe", set(), "const", [], MC.Interner(), "required_capabilities")
+                            t.required_capabilities = sd(decl)
+                            t.execute = (lambda *a, **k: ran.append("wipe") or 1)
+                            m.engulf_tool(t)
+                            if entry == "expr":
+                                m.metabolize("wipe(1)")
+                            elif entry == "call":
+                                m.execute_tool_call(ToolCall(id="1", name="wipe", arguments={}))
+                            elif entry == "call-args":
+                                m.execute_tool_call(ToolCall(id="1", name="wipe", arguments={"input": "x", "n": 2}))
+                            else:
+                                Nucleus(provider=FakeProvider([[{"name": "wipe", "args": {"input": "x"}}]])).transcribe_with_tools(
+                                    "p", m, max_iterations=2)
+                        except BaseException as e:  # noqa
+                            ran.append("raised:" + type(e).__name__)
+                        n2 += 1
+                        if "wipe" in ran:
+                            self.violations.append(Violation(
+                                "C03/disallowed-tool-ran",
+                                f"grant shape #{gi} {sorted(c.value for c in grant)}, declaration shape #{di} "
+                                f"{sorted(c.value for c in decl)}: the tool ran through entry point '{entry}'",
+                                case={"shape_probe": True, "grant_shape": gi, "declaration_shape": di, "entry": entry}))
+                            self.extra_cov["shape_probes"] = n2
+                            return
+        self.extra_cov["shape_probes"] = n2
+        # (3) an engine driven into dysfunction (error budget used up) and then repaired is still the same engine:
+        #     the allowed set survives repair() and reset-like recovery paths
+        n3 = 0
+        for max_ros in (0.3, 1.0, 0.1):
+            for how in ("bad-expr", "refused-call", "failing-tool"):
+                for amount in (None, 0.5, 10.0, 0.0):
+                    ran = []
+                    try:
+                        m = Mitochondria(silent=True, allowed_capabilities={caps[0]}, max_ros=max_ros)
+                        t = MC.ToolStub("wipe", {caps[2]}, "const", [], MC.Interner(), "required_capabilities")
+                        t.execute = (lambda *a, **k: ran.append("wipe") or 1)
+                        m.engulf_tool(t)
+                        m.engulf_tool(SimpleTool("boom", "d", lambda *a, **k: 1 / 0))
+                        for i in range(int(max_ros * 10) + 3):
+                            if how == "bad-expr":
+                                m.metabolize("1 +")
+                            elif how == "refused-call":
+                                m.execute_tool_call(ToolCall(id=str(i), name="wipe", arguments={}))
+                            else:
+                                m.execute_tool_call(ToolCall(id=str(i), name="boom", arguments={}))
+                        del ran[:]
+                        m.repair() if amount is None else m.repair(amount)
+                        m.metabolize("wipe(1)")
+                        m.execute_tool_call(ToolCall(id="z", name="wipe", arguments={}))
+                        Nucleus(provider=FakeProvider([[{"name": "wipe", "args": {}}]])).transcribe_with_tools("p", m, max_iterations=2)
+                    except BaseException as e:  # noqa
+                        ran.append("raised:" + type(e).__name__)
+                    n3 += 1
+                    if "wipe" in ran:
+                        self.violations.append(Violation(
+                            "C03/disallowed-tool-ran",
+                            f"after {int(max_ros * 10) + 3} failures ({how}, max_ros={max_ros}) and repair({'' if amount is None else amount}) "
+                            f"the tool outside the allowed set ran",
+                            case={"repair_probe": True, "max_ros": max_ros, "how": how, "amount": amount}))
+                        self.extra_cov["repair_probes"] = n3
+                        return
+        self.extra_cov["repair_probes"] = n3
 
     def exhaustive_cases(self):
         """One LLM turn with several tool calls: every order of a disallowed and an allowed call, with every pattern of
